@@ -70,3 +70,46 @@ func TestRegressRepeatedMemberCountedTwice(t *testing.T) {
 		t.Fatalf("C07 violated: VerifyCommitLight accepted a commit signed by ONE of three validators (listed five times in the decoded set)")
 	}
 }
+
+// TestRegressSameKeyUnderSeveralAddresses: the companion of TestRegressRepeatedMemberCountedTwice - validator A's
+// public key five times under five made-up addresses next to B and C: one signature by A copied into five slots was
+// accepted as 5 of 7.
+func TestRegressSameKeyUnderSeveralAddresses(t *testing.T) {
+	a, b, c := types.NewValidator(lib.Key(0).PubKey(), 1), types.NewValidator(lib.Key(1).PubKey(), 1), types.NewValidator(lib.Key(2).PubKey(), 1)
+	list := []*types.Validator{a}
+	for i := 1; i < 5; i++ {
+		cp := a.Copy()
+		cp.Address = append([]byte(nil), a.Address...)
+		cp.Address[0] ^= byte(i)
+		list = append(list, cp)
+	}
+	list = append(list, b, c)
+	raw := &types.ValidatorSet{Validators: list, Proposer: a.Copy()}
+	vp, err := raw.ToProto()
+	if err != nil {
+		t.Fatalf("VERIF-INFRA: %v", err)
+	}
+	bz, _ := vp.Marshal()
+	var back tmproto.ValidatorSet
+	if err := back.Unmarshal(bz); err != nil {
+		t.Fatalf("VERIF-INFRA: %v", err)
+	}
+	vs, err := types.ValidatorSetFromProto(&back)
+	if err != nil {
+		return // refused at the door
+	}
+	id := types.BlockID{Hash: make([]byte, 32), PartSetHeader: types.PartSetHeader{Total: 1, Hash: make([]byte, 32)}}
+	id.Hash[0], id.PartSetHeader.Hash[0] = 1, 2
+	ab := types.BlockIDFlagAbsent
+	cm := lib.SignCommit("chain-A", 5, 0, id, vs, []types.BlockIDFlag{0, ab, ab, ab, ab, ab, ab}, time.Unix(1700000000, 0).UTC(), nil)
+	for i := 1; i < 5; i++ { // all five entries hold A's key: A's one signature, under the address of each entry
+		cm.Signatures[i] = cm.Signatures[0]
+		cm.Signatures[i].ValidatorAddress = vs.Validators[i].Address
+	}
+	if err := noPanic(func() error { return vs.VerifyCommit("chain-A", id, 5, cm) }); err == nil {
+		t.Fatalf("C07 violated: VerifyCommit accepted a commit signed by ONE of three validators (its key listed five times under other addresses)")
+	}
+	if err := noPanic(func() error { return vs.VerifyCommitLight("chain-A", id, 5, cm) }); err == nil {
+		t.Fatalf("C07 violated: VerifyCommitLight accepted a commit signed by ONE of three validators (its key listed five times under other addresses)")
+	}
+}
